@@ -288,8 +288,8 @@ package stanza
 //@   loop 1:
 //@     invariant count(TokenRead) >= old(count(TokenRead)) && forall(j, old(count(TokenRead)), count(TokenRead), typeof(arg(TokenRead, j)) != xml.StartElement)
 //@   loop 2:
-//@     invariant 0 <= $i && $i <= len($range) && idOf($range[:$i], sessionID)
-//@     decreases len($range) - $i
+//@     invariant 0 <= $i && $i <= len(elem.Attr) && idOf(elem.Attr[:$i], sessionID)
+//@     decreases len(elem.Attr) - $i
 //@ pred sessionOptional(sf) := sf.Session.XMLName.Local != "session" || sf.Session.Optional != nil
 //@ func stanza.NewIQ(a) (iq, err)
 //@   ensures [C03.newiq.iff] (err == nil) == !blank(a.Type)
@@ -334,11 +334,11 @@ package stanza
 //@   emits TokenRead, DecodedElement, DecodeFailed
 //@   loop 1:
 //@     invariant 0 <= $i && $i <= len(start.Attr)
-//@     invariant [C02.attrs.message] attrOf($range[:$i], "id", msg.Id, old(msg.Id))
-//@     invariant [C02.attrs.message] attrOf($range[:$i], "type", msg.Type, old(msg.Type))
-//@     invariant [C02.attrs.message] attrOf($range[:$i], "to", msg.To, old(msg.To))
-//@     invariant [C02.attrs.message] attrOf($range[:$i], "from", msg.From, old(msg.From))
-//@     invariant [C02.attrs.message] attrOf($range[:$i], "lang", msg.Lang, old(msg.Lang))
+//@     invariant [C02.attrs.message] attrOf(start.Attr[:$i], "id", msg.Id, old(msg.Id))
+//@     invariant [C02.attrs.message] attrOf(start.Attr[:$i], "type", msg.Type, old(msg.Type))
+//@     invariant [C02.attrs.message] attrOf(start.Attr[:$i], "to", msg.To, old(msg.To))
+//@     invariant [C02.attrs.message] attrOf(start.Attr[:$i], "from", msg.From, old(msg.From))
+//@     invariant [C02.attrs.message] attrOf(start.Attr[:$i], "lang", msg.Lang, old(msg.Lang))
 //@     decreases len(start.Attr) - $i
 //@   loop 2:
 //@     invariant [C02.attrs.message] attrOf(start.Attr, "id", msg.Id, old(msg.Id)) && attrOf(start.Attr, "type", msg.Type, old(msg.Type)) && attrOf(start.Attr, "to", msg.To, old(msg.To)) && attrOf(start.Attr, "from", msg.From, old(msg.From)) && attrOf(start.Attr, "lang", msg.Lang, old(msg.Lang)) && msg.XMLName == start.Name
@@ -363,11 +363,11 @@ package stanza
 //@   emits TokenRead, DecodedElement, DecodeFailed
 //@   loop 1:
 //@     invariant 0 <= $i && $i <= len(start.Attr)
-//@     invariant [C02.attrs.presence] attrOf($range[:$i], "id", x.Id, old(x.Id))
-//@     invariant [C02.attrs.presence] attrOf($range[:$i], "type", x.Type, old(x.Type))
-//@     invariant [C02.attrs.presence] attrOf($range[:$i], "to", x.To, old(x.To))
-//@     invariant [C02.attrs.presence] attrOf($range[:$i], "from", x.From, old(x.From))
-//@     invariant [C02.attrs.presence] attrOf($range[:$i], "lang", x.Lang, old(x.Lang))
+//@     invariant [C02.attrs.presence] attrOf(start.Attr[:$i], "id", x.Id, old(x.Id))
+//@     invariant [C02.attrs.presence] attrOf(start.Attr[:$i], "type", x.Type, old(x.Type))
+//@     invariant [C02.attrs.presence] attrOf(start.Attr[:$i], "to", x.To, old(x.To))
+//@     invariant [C02.attrs.presence] attrOf(start.Attr[:$i], "from", x.From, old(x.From))
+//@     invariant [C02.attrs.presence] attrOf(start.Attr[:$i], "lang", x.Lang, old(x.Lang))
 //@     decreases len(start.Attr) - $i
 //@   loop 2:
 //@     invariant [C02.attrs.presence] attrOf(start.Attr, "id", x.Id, old(x.Id)) && attrOf(start.Attr, "type", x.Type, old(x.Type)) && attrOf(start.Attr, "to", x.To, old(x.To)) && attrOf(start.Attr, "from", x.From, old(x.From)) && attrOf(start.Attr, "lang", x.Lang, old(x.Lang)) && x.XMLName == start.Name
@@ -391,10 +391,10 @@ package stanza
 //@   emits TokenRead, DecodedElement, DecodeFailed
 //@   loop 1:
 //@     invariant 0 <= $i && $i <= len(start.Attr)
-//@     invariant [C02.attrs.iq] attrOf($range[:$i], "id", x.Id, old(x.Id))
-//@     invariant [C02.attrs.iq] attrOf($range[:$i], "type", x.Type, old(x.Type))
-//@     invariant [C02.attrs.iq] attrOf($range[:$i], "to", x.To, old(x.To))
-//@     invariant [C02.attrs.iq] attrOf($range[:$i], "from", x.From, old(x.From))
+//@     invariant [C02.attrs.iq] attrOf(start.Attr[:$i], "id", x.Id, old(x.Id))
+//@     invariant [C02.attrs.iq] attrOf(start.Attr[:$i], "type", x.Type, old(x.Type))
+//@     invariant [C02.attrs.iq] attrOf(start.Attr[:$i], "to", x.To, old(x.To))
+//@     invariant [C02.attrs.iq] attrOf(start.Attr[:$i], "from", x.From, old(x.From))
 //@     decreases len(start.Attr) - $i
 //@   loop 2:
 //@     invariant [C02.attrs.iq] attrOf(start.Attr, "id", x.Id, old(x.Id)) && attrOf(start.Attr, "type", x.Type, old(x.Type)) && attrOf(start.Attr, "to", x.To, old(x.To)) && attrOf(start.Attr, "from", x.From, old(x.From)) && x.XMLName == start.Name
